@@ -116,6 +116,7 @@ package cache
 
 //@ func (*Trait).expireAt
 //@   props C10
+//@   replay expireat
 //@   requires ctx != nil
 //@   let J := c.Config.ExpirationJitter
 //@   let unl := ttlOf(ctx) == 0 && c.Config.TimeToLive == UnlimitedTTL
@@ -209,6 +210,7 @@ package cache
 
 //@ func (*Trait).PrepareRead
 //@   props C07 C18
+//@   replayfor C18. prmetric backend:=sharded
 //@   requires ctx != nil
 //@   requires found ==> cacheEntry != nil
 //@   ensures [C07.pr.miss] !found ==> result0 == nil && result1 == ErrNotFound && clockReads() == 0
@@ -258,6 +260,7 @@ package cache
 //@ func (*shardedMap).Read
 //@   flag onesection
 //@   props C07 C09 C08 C16
+//@   replayfor C09. collide backend:=sharded
 //@   requires ctx != nil && repOK(c)
 //@   let kb := bytes(key)
 //@   let e := old(ent(c, hash(kb)))
@@ -281,6 +284,8 @@ package cache
 //@ func (*shardedMap).Write
 //@   flag onesection
 //@   props C07 C09 C10 C08 C16 C18
+//@   replayfor C09. collide backend:=sharded
+//@   replayfor C07.write.stored collide backend:=sharded
 //@   requires ctx != nil && repOK(c)
 //@   requires c.t.Config.ExpirationJitter <= 1.0
 //@   requires abs(ttlOf(ctx) != 0 ? ttlOf(ctx) : c.t.Config.TimeToLive) <= 1577880000000000000
@@ -313,6 +318,7 @@ package cache
 //@ func (*shardedMap).Delete
 //@   flag onesection
 //@   props C07 C09 C08 C16 C18
+//@   replayfor C09. collide backend:=sharded
 //@   requires ctx != nil && repOK(c)
 //@   let kb := bytes(key)
 //@   let h := hash(kb)
@@ -345,6 +351,7 @@ package cache
 
 //@ func (*shardedMap).Store
 //@   props C07 C09
+//@   replay storelen
 //@   requires repOK(c)
 //@   requires c.t.Config.ExpirationJitter <= 1.0 && abs(c.t.Config.TimeToLive) <= 1577880000000000000
 //@   requires c.t.expirationsSet >= 0 && c.t.expirationsSet < 4611686018427387904
@@ -361,6 +368,7 @@ package cache
 //@ def shardLen(c, i) := len(c.hashedBuckets[i].data)
 //@ func (*shardedMap).Len
 //@   props C07 C08 C16
+//@   replay storelen
 //@   requires repOK(c)
 //@   ensures [C07.len.sum] result == ghost(lensum, 128) - ghost(lensum, 0)
 //@       && (forall j int :: 0 <= j && j < 128 ==> ghost(lensum, j + 1) == ghost(lensum, j) + shardLen(c, j))
@@ -414,12 +422,17 @@ package cache
 
 //@ func (*TraitOf[V]).PrepareRead
 //@   like (*Trait).PrepareRead subst TraitEntry=TraitEntryOf[V] errExpired=errExpiredOf[V] nil_value=zeroV
+//@   replayfor C18. prmetric backend:=shardedof
 //@ func (*shardedMapOf[V]).Read
 //@   like (*shardedMap).Read subst TraitEntry=TraitEntryOf[V] errExpired=errExpiredOf[V]
+//@   replayfor C09. collide backend:=shardedof
 //@ func (*shardedMapOf[V]).Write
 //@   like (*shardedMap).Write subst TraitEntry=TraitEntryOf[V]
+//@   replayfor C09. collide backend:=shardedof
+//@   replayfor C07.write.stored collide backend:=shardedof
 //@ func (*shardedMapOf[V]).Delete
 //@   like (*shardedMap).Delete subst TraitEntry=TraitEntryOf[V]
+//@   replayfor C09. collide backend:=shardedof
 //@ func (*shardedMapOf[V]).Load
 //@   like (*shardedMap).Load subst TraitEntry=TraitEntryOf[V]
 //@ func (*shardedMapOf[V]).deleteExpired
@@ -1615,6 +1628,7 @@ package cache
 // in the trait (the janitor of C11 / C12 calls them through these fields).
 //@ func NewShardedMap$1
 //@   props C11 C12
+//@   replay wiring
 //@   flag unshared t
 //@   requires t != nil
 //@   ensures [C11.new.wiring] isBound(t.DeleteExpired, "(*shardedMap).deleteExpired", *c) && isBound(t.Len, "(*shardedMap).Len", *c) && t.Evict == *evict
@@ -1622,12 +1636,14 @@ package cache
 
 //@ func NewShardedMapOf$1
 //@   props C11 C12
+//@   replay wiring
 //@   flag unshared t
 //@   requires t != nil
 //@   ensures [C11.new.wiring] isBound(t.DeleteExpired, "(*shardedMapOf[V]).deleteExpired", *c) && isBound(t.Len, "(*shardedMapOf[V]).Len", *c) && t.Evict == *evict
 //@   modifies H|Trait|*
 //@ func NewSyncMap$1
 //@   props C11 C12
+//@   replay wiring
 //@   flag unshared t
 //@   requires t != nil
 //@   ensures [C11.new.wiring] isBound(t.DeleteExpired, "(*syncMap).deleteExpired", *c) && isBound(t.Len, "(*syncMap).Len", *c) && t.Evict == *evict
@@ -1638,6 +1654,7 @@ package cache
 // runs inside NewTrait, and inlining NewTrait into this proof multiplies the paths beyond a quick check.)
 //@ func NewShardedMap
 //@   props C07
+//@   replayfor C12.new wiring
 //@   flag noC16 constructor: the map becomes reachable by the janitor goroutine (through the option closure handed to NewTrait) before its InvalidationIndex field is set; the janitor only calls deleteExpired, Len and the eviction routine, none of which reads that field, but the field-class discipline cannot see that
 //@   requires forall j int :: 0 <= j && j < len(options) ==> options[j] != nil
 //@   ensures [C07.new.rep] result != nil && result.shardedMap != nil && repOK(result.shardedMap) && (forall h uint64 :: !hasH(result.shardedMap, h))
@@ -1654,6 +1671,7 @@ package cache
 // option closure is the one above.
 //@ func NewSyncMap
 //@   props C12
+//@   replayfor C12.new.strategy wiring
 //@   flag noC16 constructor: same reason as NewShardedMap
 //@   requires forall j int :: 0 <= j && j < len(options) ==> options[j] != nil
 //@   ensures [C12.new.sm.nonnil] result != nil && result.syncMap != nil
@@ -1662,6 +1680,7 @@ package cache
 //@       && len(callarg1) == 1 && isFunc(callarg1[0], "NewSyncMap$1")
 //@ func NewShardedMapOf
 //@   props C12
+//@   replayfor C12.new.strategy wiring
 //@   flag noC16 constructor: same reason as NewShardedMap
 //@   requires forall j int :: 0 <= j && j < len(options) ==> options[j] != nil
 //@   ensures [C12.new.of.nonnil] result != nil && result.shardedMapOf != nil
@@ -1678,6 +1697,7 @@ package cache
 // ---------------------------------------------------------------------------------------------------
 //@ func NewFailover
 //@   props C05 C01
+//@   replay wiring
 //@   flag noC16 constructor: the object is not shared before it is returned
 //@   requires forall j int :: 0 <= j && j < len(options) ==> options[j] != nil
 //@   ensures [C05.new.defaults] result != nil && result.config.UpdateTTL != 0 && result.config.FailedUpdateTTL != 0
@@ -1688,6 +1708,7 @@ package cache
 //@       && boundRecv(callarg0[0], "(Config).Use").TimeToLive == cfg.FailedUpdateTTL
 //@ func NewFailoverOf
 //@   props C05 C01
+//@   replay wiring
 //@   flag noC16 constructor: the object is not shared before it is returned
 //@   requires forall j int :: 0 <= j && j < len(options) ==> options[j] != nil
 //@   ensures [C05.new.defaults] result != nil && result.config.UpdateTTL != 0 && result.config.FailedUpdateTTL != 0
